@@ -669,6 +669,35 @@ async fn merge(
                 .first()
                 .map(|b| b.schema())
                 .ok_or_else(|| QueryError::Execution("no shard returned a schema".into()))?;
+            // A TopN partial is the statement's own select list, and the merge
+            // query names its columns by the statement's OUTPUT names. A
+            // wildcard item expands to relation-qualified fields (`t.id`),
+            // which the merge query's `"id"` did not bind to: every
+            // `SELECT * .. ORDER BY ..` failed with 'Column not found'.
+            let (schema, batches) = if matches!(plan.shape, MergeShape::TopN)
+                && schema.fields().len() == plan.output_names.len()
+                && schema
+                    .fields()
+                    .iter()
+                    .zip(&plan.output_names)
+                    .any(|(f, n)| f.name() != n)
+            {
+                let renamed = Arc::new(arrow::datatypes::Schema::new(
+                    schema
+                        .fields()
+                        .iter()
+                        .zip(&plan.output_names)
+                        .map(|(f, n)| f.as_ref().clone().with_name(n.clone()))
+                        .collect::<Vec<_>>(),
+                ));
+                let batches = batches
+                    .into_iter()
+                    .map(|b| RecordBatch::try_new(renamed.clone(), b.columns().to_vec()))
+                    .collect::<std::result::Result<Vec<_>, _>>()?;
+                (renamed, batches)
+            } else {
+                (schema, batches)
+            };
             let mut ctx = ExecutionContext::with_config(base.config().clone());
             ctx.register_table(PARTIAL_TABLE, schema, batches);
             // The merge is an ordinary local query over an in-memory table, so
